@@ -171,6 +171,9 @@ func setWithDelims(files map[string]string, d delims) *jet.Set {
 	if d.LC != "" || d.RC != "" {
 		opts = append(opts, jet.WithCommentDelims(d.LC, d.RC))
 	}
+	if len(opts) == 2 && len(files)%2 == 1 || len(opts) == 2 && len(d.L)%2 == 1 {
+		opts[0], opts[1] = opts[1], opts[0] // options commute
+	}
 	return jet.NewSet(ld, opts...)
 }
 
